@@ -423,10 +423,11 @@ partial def nodeOf (unpriv : Bool) (siblings : List Json) (j : Json) : Node (Lis
     let size := if intOf j "size" (-1) ≥ 0 then (intOf j "size").toNat else (strOf j "c").length
     .file name size (if locked then none else fileContent j)
 
-def visitFails (maxSize : Nat) (root : List Char) (v : Visit (List Char)) : Bool :=
+def visitFails {B : Type} (maxSize : Nat) (root : List Char) (v : Visit B) : Bool :=
   match v.kind with
-  | .lstatErr => v.path != root
-  | .dir e => e && v.path != root
+  | .lstatErr e => !(v.path == root && e == .notExist)
+  | .dir (some e) => !(v.path == root && e == .notExist)
+  | .dir none => false
   | .file _ c => selected maxSize v && c.isNone
 
 def pathH (inp impl : Json) : Verdict :=
@@ -435,9 +436,9 @@ def pathH (inp impl : Json) : Verdict :=
   let tree := arrOf inp "tree"
   let (root, rootNode) : List Char × Root (List Char) :=
     match kind with
-    | "empty" => ([], .missing [])
-    | "missing" => ("T/root".toList, .missing "root".toList)
-    | "underfile" => ("T/root/certs".toList, .missing "certs".toList)
+    | "empty" => ([], .absent [] .notExist)
+    | "missing" => ("T/root".toList, .absent "root".toList .notExist)
+    | "underfile" => ("T/root/certs".toList, .absent "certs".toList .other)
     | "dir" => ("T/root".toList, .node (.dir "root".toList (!(unpriv && boolOf inp "root_locked")) (tree.map (nodeOf unpriv tree))))
     | "link" =>
       let n := (strOf (tree.head?.getD Json.null) "n").toList
@@ -446,7 +447,7 @@ def pathH (inp impl : Json) : Verdict :=
       let n := nodeOf unpriv [] (tree.head?.getD Json.null)
       ("T/".toList ++ n.name, .node n)
   let vs := rootNode.visits root
-  let mo := obsOf (loadPath maxSize root vs)
+  let mo := obsOf (loadPath true maxSize root vs)
   let io := implObs impl
   -- the property on the implementation's own output, without the fold: fails iff something below the root
   -- cannot be stat'ed / listed or a selected file cannot be read; else exactly the selected files
@@ -461,13 +462,15 @@ def pathH (inp impl : Json) : Verdict :=
   let tag :=
     if root.isEmpty then "path-empty-root"
     else match broken with
-      | some v => (match v.kind with | .file _ _ => "path-read-error" | _ => "path-walk-error")
+      | some v => (match v.kind with
+        | .file _ _ => "path-read-error"
+        | _ => if v.path == root then (if kind == "underfile" then "path-root-notdir" else "path-root-locked")
+               else "path-walk-error")
       | none => match kind with
         | "missing" => "path-missing-root"
-        | "underfile" => "path-root-notdir"
         | "file" => "path-root-file"
         | "link" => "path-root-link"
-        | _ => if unpriv && boolOf inp "root_locked" then "path-root-locked" else "path-ok"
+        | _ => "path-ok"
   { model := obsJson mo, agree := mo == io && intOf impl "max_size" == maxSize, spec := io == want,
     nontrivial := kind == "dir" && vs.length ≥ 3, tag := tag }
 
@@ -509,7 +512,8 @@ def splitSlash (s : List Char) : List (List Char) := splitOn '/' s
 
 /-- the directory of an epoch as a tree: plain files at the top, one directory per first path segment -/
 def srcTree (e : Json) : Root Body :=
-  if boolOf e "missing" then .missing "root".toList else
+  if boolOf e "missing" then .absent "root".toList .notExist else
+  if strOf e "root_err" == "notdir" then .absent "root".toList .other else
   let files := (arrOf e "files").map fun f =>
     (splitSlash (strOf f "name").toList,
      (if boolOf f "dangling" then (7, none) else (100, some (⟨[], srcPem f⟩ : Body)) : Nat × Option Body))
@@ -523,7 +527,7 @@ def srcTree (e : Json) : Root Body :=
     Node.dir d true (files.filterMap fun (segs, sc) => match segs with
       | d' :: rest@(_ :: _) => if d' == d then some (Node.file (joinDotsWith '/' rest) sc.1 sc.2) else none
       | _ => none)
-  .node (.dir "root".toList true (top ++ dirs))
+  .node (.dir "root".toList (strOf e "root_err" != "locked") (top ++ dirs))
 where
   joinDotsWith (c : Char) : List (List Char) → List Char
     | [] => []
@@ -533,7 +537,7 @@ where
 def srcRoot : List Char := "T/root".toList
 
 def srcLoadPath (e : Json) : LoadResult (Option (PemMap Body)) :=
-  loadPath maxSize srcRoot ((srcTree e).visits srcRoot)
+  loadPath true maxSize srcRoot ((srcTree e).visits srcRoot)
 
 def matOfMap (m : Option (PemMap Body)) : Mat :=
   m.map fun pm => ((canonMap pm).map fun e => (e.1, e.2.pem)).mergeSort (fun a b => lexLe a.1 b.1)
@@ -552,6 +556,7 @@ def srcDeclared (kind : String) (base : List Char) (e : Json) : Option Mat :=
     else some (some ((got.filterMap id).map fun f => (base ++ (strOf f "name").toList, srcPem f)))
   else
     if boolOf e "missing" then some (some []) else
+    if strOf e "root_err" != "" then none else
     let sel := files.filter fun f =>
       let segs := splitSlash (strOf f "name").toList
       let last := segs.getLast?.getD []
@@ -589,7 +594,9 @@ def sourceH : Handler := fun inp impl => do
     | none => true
   return ({ model := model, agree := agree, spec := safe && live,
             nontrivial := o.sawBad || o.pubs.length ≥ 2,
-            tag := kind ++ ":" ++ (if safe && !live then "usable-material-not-published" else o.lastTag) } : Verdict).toJson
+            tag := kind ++ ":" ++ (if safe && !live then
+              (if ((declared[min (iCalls.toNat - 1) (declared.size - 1)]?).join).isNone then "working-set-lost"
+               else "usable-material-not-published") else o.lastTag) } : Verdict).toJson
 
 /-! ### c11.e2e -/
 
